@@ -187,3 +187,41 @@ Proof.
   eexists. split; [reflexivity|]. rewrite D, E, !py__APDU_decode_eq, py__APDU_encode_eq.
   repeat split; reflexivity.
 Qed.
+
+(* ================= the object-history model's steps ARE the translated methods *)
+
+(* OpDecodeFrom o src = objs[o].decode(objs[src]) through the translated APDU.decode *)
+Lemma step_decode_from_is_translated st o src so ss : o <> src ->
+  py_APDU_decode (fst (lookup st o)) (snd (lookup st o)) (fst (lookup st src)) (snd (lookup st src)) = Ok (so, ss) ->
+  lookup (fst (step st (OpDecodeFrom o src))) o = so /\
+  lookup (fst (step st (OpDecodeFrom o src))) src = ss.
+Proof.
+  intros H. rewrite py_APDU_decode_eq.
+  destruct (dec_into (fst (lookup st o)) (snd (lookup st src))) as [[a r]|e] eqn:D; cbn [bind]; [|discriminate].
+  intros E; injection E as <- <-. exact (decode_from_drains st o src a r H D).
+Qed.
+
+(* OpTyped dst src = objs[dst].decode(objs[src]) through the translated _APDU.decode, objs[dst] holding anything *)
+Lemma step_typed_is_translated st dst src so ss : dst <> src ->
+  py__APDU_decode (fst (lookup st dst)) (snd (lookup st dst)) (fst (lookup st src)) (snd (lookup st src)) = Ok (so, ss) ->
+  lookup (fst (step st (OpTyped dst src))) dst = so /\
+  lookup (fst (step st (OpTyped dst src))) src = ss.
+Proof.
+  intros H. rewrite py__APDU_decode_eq. intros E; injection E as <- <-.
+  destruct (typed_decode_replaces st dst src H) as [A B]. rewrite A, B.
+  destruct (lookup st src); split; reflexivity.
+Qed.
+
+(* OpEncodeTo o dst = objs[o].encode(objs[dst]) through the translated APDU.encode *)
+Lemma step_encode_to_is_translated st o dst so sd' : o <> dst ->
+  py_APDU_encode (fst (lookup st o)) (snd (lookup st o)) (fst (lookup st dst)) (snd (lookup st dst)) = Ok (so, sd') ->
+  lookup (fst (step st (OpEncodeTo o dst))) o = so /\
+  lookup (fst (step st (OpEncodeTo o dst))) dst = sd'.
+Proof.
+  intros H. rewrite py_APDU_encode_eq. cbn [step].
+  destruct (lookup st o) as [a p] eqn:Lo. cbn [fst snd].
+  destruct (enc_apdu a p) as [bs|e]; cbn [bind]; [|discriminate].
+  intros E; injection E as <- <-.
+  destruct (lookup st dst) as [da dd] eqn:Ld. cbn [fst snd].
+  rewrite lookup_update_same, lookup_update_other by congruence. split; [exact Lo|reflexivity].
+Qed.
